@@ -3,6 +3,8 @@ CONSTANTS
   V = {"i1", "i2"}
   M <- M2
   B = {"b1"}
+  Kinds = {"apply", "stub", "when"}
+  Args = {7, 8}
   MaxOps = 5
   Ops <- AllOps
 INVARIANT CallsConform
